@@ -12,14 +12,14 @@ var stdAssumptions = []string{
 // (ARITY <- TC, STACK <- BC-3, ANNOT <- TC, twin loops <- SIBLING-1, ...), so that a thorough run re-derives its assumptions;
 // in addition the SSA effect rules analyse every module function instead of only those reachable from the entries.
 var thoroughExtra = map[string][]string{
-	"C01": {"SIBLING-4", "SIBLING-9", "CONV", "UN-1"},
+	"C01": {"SIBLING-4", "SIBLING-9", "UN-1"},
 	"C02": {"TC", "SIBLING-1", "SIBLING-2", "BC-1", "BC-7", "PANIC-1", "EFFECT-6"},
 	"C03": {"BC-2", "BC-3", "BC-7", "TC", "DS~DS-2", "SIG-1", "EFFECT-6", "TRAVERSE-1"},
 	"C04": {"SIBLING-1", "SIBLING-3", "TOTAL-1"},
 	"C05": {"UN-1", "KINDSW", "LEX~LEX-7"},
 	"C06": {"SIBLING-1", "SIBLING-2", "BC-1", "TC"},
 	"C07": {"SIBLING-9", "EFFECT-3", "CONV", "EFFECT-7"},
-	"C08": {"LEX~LEX-7", "SORTLESS-2", "DS~DS-2"},
+	"C08": {"SORTLESS-2", "DS~DS-2"},
 	"C09": {"PARSE"},
 	"C10": {"TC", "PARSE", "LAZY", "TRAVERSE-1"},
 	"C11": {"TC", "SIBLING-1", "SIBLING-3", "SIBLING-6", "POPORDER-1", "LAZY"},
@@ -40,22 +40,22 @@ func ps(notCovered string, rules ...string) propSpec {
 
 // property -> rules. The explanation in the evidence is composed from the clause of every rule that ran.
 var props = map[string]propSpec{
-	"C01": ps("the soundness theorem itself (that checker rules and the reduction rules of three evaluators fit together for every program); user-registered functions", "EQ-FIELDS", "TC", "KINDSW", "LAYOUT", "BC-6", "SIG-1", "EFFECT-6", "BC-1", "BC-7", "SIBLING-9", "EFFECT-2"),
-	"C02": ps("'stops exactly when the semantics says undefined' for % on fractional/huge operands and non-finite indices (float->int results are run-time values); nil dereference in general", "EFFECT-2", "TOTAL-1", "SIG-1", "SIBLING-4", "SIBLING-8", "BC-1", "BC-2", "BC-3", "BC-5", "BC-6", "KINDSW", "LAYOUT", "IDENT-2", "SIBLING-7"),
+	"C01": ps("the soundness theorem itself (that checker rules and the reduction rules of three evaluators fit together for every program); user-registered functions", "EQ-FIELDS", "TC", "KINDSW", "LAYOUT", "BC-6", "SIG-1", "EFFECT-6", "BC-1", "BC-7", "SIBLING-9", "EFFECT-2", "CONV"),
+	"C02": ps("'stops exactly when the semantics says undefined' for % on fractional/huge operands and non-finite indices (float->int results are run-time values); nil dereference in general", "EFFECT-2", "TOTAL-1", "SIG-1", "SIBLING-4", "SIBLING-8", "BC-1", "BC-2", "BC-3", "BC-5", "BC-6", "KINDSW", "LAYOUT", "IDENT-2", "SIBLING-7", "CONV"),
 	"C03": ps("equality of results for programs whose meaning depends on user functions; closure compiler and interpreter are compared by shape, not by normal form", "SIBLING-1", "SIBLING-2", "SIBLING-3", "SIBLING-4", "SIBLING-6", "SIBLING-7", "SIBLING-8", "SIBLING-9", "POPORDER-1", "LAZY", "BC-1", "BC-2", "BC-5", "BC-6", "BC-7"),
 	"C04": ps("IEEE arithmetic, the tolerance comparison, rune counting, set semantics, strtotime (a C library), literal decoding: values are not computed by static analysis; only that the VM twin of each built-in is the same expression, that integer rendering is guarded, and that every built-in is registered", "SIBLING-2", "INTGUARD-1", "INTGUARD-2", "SIG-1", "SIG-2", "SETORD-1", "SPEC-1", "SPEC-2", "BC-1", "BC-7", "IDENT-2"),
-	"C05": ps("completeness/soundness of Unify as an algorithm (C17); the 'if and only if' as a whole", "TC", "EQ-FIELDS", "UN-1", "KEY-1", "KINDSW", "PAIR-1", "SIBLING-9"),
+	"C05": ps("completeness/soundness of Unify as an algorithm (C17); the 'if and only if' as a whole", "TC", "EQ-FIELDS", "UN-1", "KEY-1", "KINDSW", "PAIR-1", "SIBLING-9", "DS~DS-2"),
 	"C06": ps("user-registered lazy functions' own bodies; that a thunk forced twice evaluates twice is the same in all back ends by shape", "LAZY", "SIBLING-3", "SIBLING-8", "SIBLING-6", "SIBLING-7", "POPORDER-1", "BC-3", "DS~DS-2", "DS-9", "TRAVERSE-1"),
 	"C07": ps("whether types.Equals is the right relation for host data of equal shape (C15/C17)", "ENVCHK", "PANIC-1", "EQ-FIELDS", "LAYOUT", "CONV", "EFFECT-2"),
-	"C08": ps("equality with a reference precedence parser for all operator tables; syntax-error classification of arbitrary token sequences", "PARSE", "EFFECT-2"),
-	"C09": ps("agreement with a reference maximal-munch lexer on all strings; the regular languages of the literal patterns", "LEX", "LEX-8", "SORTLESS-2", "EFFECT-2"),
-	"C10": ps("the semantic half (same value or fail alike) beyond operand order and callee; it follows from C03/C05 for the explicit call", "DS", "DS-7", "DS-9", "SIBLING-4", "LEX-8"),
+	"C08": ps("equality with a reference precedence parser for all operator tables; syntax-error classification of arbitrary token sequences", "PARSE", "EFFECT-2", "LEX~LEX-7"),
+	"C09": ps("agreement with a reference maximal-munch lexer on all strings; the regular languages of the literal patterns", "LEX", "LEX-8", "SORTLESS-2", "EFFECT-2", "EFFECT-7"),
+	"C10": ps("the semantic half (same value or fail alike) beyond operand order and callee; it follows from C03/C05 for the explicit call", "DS", "DS-7", "DS-9", "SIBLING-4", "LEX-8", "LEX~LEX-7"),
 	"C11": ps("nothing is executed: the stack-effect walk is an induction over the compiler source (trusted: the walker's model of the six emitter functions)", "BC-1", "BC-2", "BC-3", "BC-5", "BC-6", "BC-7", "SIBLING-2", "EFFECT-2"),
 	"C12": ps("termination / polynomial time in general (only the backtracking structure is decided); unrecoverable Go failures (stack exhaustion, OOM, concurrent map write)", "PANIC-1", "PARSE-8", "CONV", "BC-2", "BC-3", "DS-7", "TRAVERSE-1", "PAIR-2"),
 	"C13": ps("time literals relative to now; user-registered functions", "EFFECT-1", "EFFECT-2", "EFFECT-3", "EFFECT-4", "EFFECT-5", "EFFECT-6", "EFFECT-7", "ENGINE", "MAPORDER-1", "MAPORDER-2", "PAIR-1", "SORTLESS-1", "SIBLING-9", "ENVCHK", "IDENT-2", "DS~DS-2"),
 	"C14": ps("schedules as such (nothing is executed); cgo state inside timelib beyond the mutex-guarded Go cache; callers sharing one *val.Env between goroutines while mutating it", "EFFECT-2", "EFFECT-5", "EFFECT-6", "EFFECT-7", "ENGINE", "EFFECT-3", "PAIR-2"),
 	"C15": ps("equality of contents with the original Go value and numeric faithfulness (run-time values)", "CONV", "PANIC-1", "EQ-FIELDS", "IDENT-2"),
-	"C16": ps("the universal 'every such program is rejected' as a statement over programs; only the structural reasons it holds are decided", "CONV", "EQ-FIELDS", "UN-1", "TC", "SIBLING-2", "ENVCHK", "TOTAL-1", "SIG-1"),
+	"C16": ps("the universal 'every such program is rejected' as a statement over programs; only the structural reasons it holds are decided", "CONV", "EQ-FIELDS", "UN-1", "TC", "SIBLING-2", "ENVCHK", "TOTAL-1", "SIG-1", "EFFECT-2"),
 	"C17": ps("the algebraic laws (most general unifier, agreement with a reference matcher) quantify over pairs of types and need enumeration or proof", "EQ-FIELDS", "UN-1", "KINDSW"),
 	"C18": ps("the biconditional for arbitrary value pairs (values are not enumerated)", "SORTLESS-1", "INTGUARD-1", "INTGUARD-2", "PAIR-1", "MAPORDER-1", "MAPORDER-2", "EQ-FIELDS", "LAYOUT", "SETORD-1", "IDENT-1", "IDENT-2"),
 	"C19": ps("equality with normal evaluation (that is C03: Debug uses the closure back end, Eval the VM); layout of the report for arbitrary columns beyond rune arithmetic", "DEBUG", "LAZY", "PANIC-1", "SIBLING-4"),
